@@ -418,6 +418,32 @@ def parse_fragment(text, fname):
 
 # --------------------------------------------------------------------------- assembly
 
+def trusted_bodies(text):
+    """(fn name, body start, body end) for every function in the fragment text that carries #[verifier::external_body]"""
+    toks = tokenize(text)
+    out = []
+    i, n = 0, len(toks)
+    while i + 6 < n:
+        if (toks[i].text == "#" and toks[i+1].text == "[" and toks[i+2].text == "verifier" and toks[i+3].text == "::"
+                and toks[i+4].text == "external_body" and toks[i+5].text == "]"):
+            j = i + 6
+            # skip further attributes / qualifiers up to `fn`; stop at struct/enum/trait/impl (external_body on a type is not a function)
+            while j < n and toks[j].text not in ("fn", "struct", "enum", "trait", "impl", "type"):
+                if toks[j].text in ("[", "("): j = match_close(toks, j)
+                j += 1
+            if j < n and toks[j].text == "fn":
+                name = toks[j+1].text if j + 1 < n else "?"
+                k = j
+                while k < n and toks[k].text not in ("{", ";"):
+                    if toks[k].text in ("(", "["): k = match_close(toks, k)
+                    k += 1
+                if k < n and toks[k].text == "{":
+                    c = match_close(toks, k)
+                    out.append((name, toks[k].start, toks[c].end))
+            i = j
+        i += 1
+    return out
+
 def assemble_fragment(text, fname, repo, stats, srcs):
     """Return (generated_text, items, report)."""
     items = parse_fragment(text, fname)
@@ -493,6 +519,14 @@ def assemble_fragment(text, fname, repo, stats, srcs):
                         continue
                 edits.append((pos, pos, " " + new + " "))
             report.append((it, op, " ".join(at[i1:i2]), " ".join(bt[j1:j2])))
+    # a repository change inside the BODY of a function that is trusted here (external_body, body kept verbatim) must not be
+    # merged silently: the trust was given to the text that was read, not to whatever replaces it
+    if edits:
+        for (name, lo, hi) in trusted_bodies(text):
+            for (s_, e_, r_) in edits:
+                if lo <= s_ < hi or lo < e_ <= hi:
+                    raise AssemblyError("conflict: repository change inside the body of the trusted (external_body) function `%s` in %s - "
+                                        "trusted code changed, re-examine the assumption" % (name, os.path.basename(fname)))
     # apply edits back to front
     out = text
     for (s, e, r) in sorted(edits, key=lambda x: (x[0], x[1]), reverse=True):
@@ -574,13 +608,35 @@ def render_src(toks):
         prev = t
     return out
 
-def audit_fragment(gen_text, fname, repo, srcs):
+def derive_set(toks):
+    """the traits named in `#[derive(..)]` attributes among toks (N1 drops attributes from the comparison, so the derive
+    lists are audited separately: a derive changes which code runs)"""
+    out = set()
+    i, n = 0, len(toks)
+    while i + 3 < n:
+        if toks[i].text == "#" and toks[i+1].text == "[" and toks[i+2].text == "derive" and toks[i+3].text == "(":
+            c = match_close(toks, i + 3)
+            out |= {t.text for t in toks[i+4:c] if IDENT.fullmatch(t.text)}
+            i = c
+        i += 1
+    return out
+
+DERIVES_NOT_CARRIED = {"Debug", "Serialize", "Deserialize"}   # formatting / serde output: never on a verified path (D1)
+
+def audit_fragment(gen_text, fname, repo, srcs, stats=None):
     """Re-parse the generated text; every item must now be token-equal to the repository."""
     items = parse_fragment(gen_text, fname)
     n = 0
     for it in items:
         sf = srcs[(it.relpath, it.subst)]
         stoks = sf.find(it.container, it.name, it.occurrence)
+        if it.name.startswith(("struct ", "enum ")):
+            fa, ra = derive_set(it.exec), derive_set(stoks)
+            if fa - ra - DERIVES_NOT_CARRIED:
+                raise AssemblyError("audit mismatch in %s: the fragment derives %s, the repository does not" % (it.name, sorted(fa - ra - DERIVES_NOT_CARRIED)))
+            missing = ra - fa - DERIVES_NOT_CARRIED
+            if missing and stats is not None:
+                stats.setdefault("derives_not_carried", []).append("%s: %s" % (it.name, ",".join(sorted(missing))))
         a = [t.text for t in normalise(it.exec)]
         b = [t.text for t in normalise(stoks)]
         if a != b:
@@ -600,7 +656,7 @@ def assemble_unit(fragments, repo, outpath=None):
         text = open(fp, encoding="utf-8").read()
         try:
             gen, items, rep = assemble_fragment(text, fp, repo, stats, srcs)
-            audited += audit_fragment(gen, fp, repo, srcs)
+            audited += audit_fragment(gen, fp, repo, srcs, stats)
         except ValueError as e:
             raise AssemblyError("%s: %s" % (fp, e))
         texts.append((fp, gen))
